@@ -9,13 +9,13 @@ LEVEL = "exploration"
 TECHNIQUE = "exported dictionaries compared with an independent serialiser over the recorded attributes (type and key order of every nested dict), import/export round trips compared structurally, deep before/after snapshots of the arguments"
 RULE = (
     "case = (tree, start, attribute dictionaries, maxlevel, attriter/childiter/dictcls option set, nodecls); all ordered trees up to n nodes x every start "
-    "x maxlevel None,0..h+1 x 6 option sets x 3 node classes with seeded attribute dictionaries; random trees with rich attribute values; "
+    "x maxlevel None,0..h+1 x 10 option sets x 3 node classes with seeded attribute dictionaries; random trees with rich attribute values; "
     "distinct = hash of the configuration; trivial = none"
 )
 ASSUMPTIONS = [
     "attribute keys are strings other than parent/children and the constructor's own parameter names (self; name is present for Node): the importer passes attributes as keyword arguments",
 ]
-GATES = ["mon.C10.export", "mon.C10.import", "mon.C10.roundtrip", "mon.C10.args_unchanged", "C10.maxlevel_cuts", "C10.leaf_attrs", "C10.empty_children_input", "C10.nested_dictcls", "C10.options_deep"]
+GATES = ["mon.C10.export", "mon.C10.import", "mon.C10.roundtrip", "mon.C10.args_unchanged", "C10.maxlevel_cuts", "C10.leaf_attrs", "C10.empty_children_input", "C10.nested_dictcls", "C10.options_deep", "C10.exporter_reused", "C10.aborted_export_then_reuse"]
 
 
 def plan(tier, seed, jobs):
@@ -27,16 +27,19 @@ class MyDict(dict):
     pass
 
 
-def deep_eq(a, b):
-    """Strict structural equality: same types, floats by repr, dict key order for ordered dict classes."""
+def deep_eq(a, b, ordered=False):
+    """Strict structural equality: same types, floats by repr; key order only when ``ordered`` (it is defined by the
+    statement only where an attriter imposes it - the insertion order of a node's instance dict is not)."""
     if type(a) is not type(b):
         return False
     if isinstance(a, dict):
-        if list(a.keys()) != list(b.keys()):
+        if ordered and list(a.keys()) != list(b.keys()):
             return False
-        return all(deep_eq(a[k], b[k]) for k in a)
+        if set(a.keys()) != set(b.keys()):
+            return False
+        return all(deep_eq(a[k], b[k], ordered) for k in a)
     if isinstance(a, (list, tuple)):
-        return len(a) == len(b) and all(deep_eq(x, y) for x, y in zip(a, b))
+        return len(a) == len(b) and all(deep_eq(x, y, ordered) for x, y in zip(a, b))
     if isinstance(a, float):
         return repr(a) == repr(b)
     return a == b
@@ -68,6 +71,10 @@ def option_sets(idmap):
         ("sorted-filter-children", {"childiter": lambda ch: sorted([c for c in ch if lab(c) % 3], key=lab, reverse=True), "attriter": lambda attrs: reversed(list(attrs)), "dictcls": collections.OrderedDict},
          lambda it: list(reversed(it)), lambda ks: sorted([k for k in ks if k % 3], reverse=True), collections.OrderedDict),
         ("tuple-children", {"childiter": tuple}, None, None, dict),
+        # lazy iterators are always truthy, whatever they will yield
+        ("lazy-reversed", {"childiter": reversed}, None, lambda ks: list(reversed(ks)), dict),
+        ("lazy-generator", {"childiter": lambda ch: (c for c in ch if lab(c) % 4 != 1), "attriter": lambda attrs: (kv for kv in attrs)}, None, lambda ks: [k for k in ks if k % 4 != 1], dict),
+        ("lazy-iter", {"childiter": iter, "dictcls": collections.OrderedDict}, None, None, collections.OrderedDict),
     ]
 
 
@@ -165,7 +172,7 @@ def check_export(ctx, lib, nodes, recorded, ch, s, ml, opt, case):
         ctx.count("C10.options_deep")
     if R.height(ch, s) >= 1 and any(recorded[x] for x in R.leaves(ch, s)):
         ctx.count("C10.leaf_attrs")
-    if not deep_eq(got, exp):
+    if not deep_eq(got, exp, ordered=(oname == "ordered-sorted")):
         ctx.violation("C10/export/%s" % oname, "independent-serialiser", cfg, expected=repr(exp)[:800], observed=repr(got)[:800])
         return None
     if not check_dict_types(got, dictcls):
@@ -210,6 +217,57 @@ def check_import(ctx, lib, data, nodecls, clsname, case):
     return root
 
 
+def check_reuse(ctx, lib, rng, nodes, recorded, ch, opts, case):
+    """One exporter object used again and again while its public option attributes are changed in between and
+    after an export that was aborted by an exception from a user callback."""
+    from anytree.exporter import DictExporter
+
+    n = len(nodes)
+    exporter = DictExporter()
+    log = []
+
+    class Boom(Exception):
+        pass
+
+    for step in range(6):
+        oname, kw, attr_fn, child_fn, dictcls = opts[rng.randrange(len(opts))]
+        s = rng.randrange(n)
+        ml = rng.choice([None, None, 0, 1, 2, 3])
+        if rng.random() < 0.35 and R.height(ch, s) >= 1:
+            # abort an export somewhere below the start node, then carry on with the same object
+            victim = rng.choice([x for x in R.preorder_iter(ch, s) if x != s])
+            depth_reached = {"n": 0}
+
+            def boom_childiter(children, victim=victim):
+                out = []
+                for c in children:
+                    if c is nodes[victim]:
+                        raise Boom()
+                    out.append(c)
+                return out
+
+            exporter.childiter = boom_childiter
+            exporter.maxlevel = None
+            try:
+                exporter.export(nodes[s])
+            except Boom:
+                ctx.count("C10.aborted_export_then_reuse")
+            log.append(["abort", s, victim])
+        exporter.dictcls = kw.get("dictcls", dict)
+        exporter.attriter = kw.get("attriter", None)
+        exporter.childiter = kw.get("childiter", list)
+        exporter.maxlevel = ml
+        log.append([oname, s, ml])
+        ctx.count("C10.exporter_reused")
+        ctx.count("mon.C10.export")
+        exp = ref_export(recorded, ch, s, ml, attr_fn, child_fn, dictcls)
+        got = exporter.export(nodes[s])
+        if not deep_eq(got, exp):
+            ctx.violation("C10/export/reused-exporter", "independent-serialiser", dict(case, reuse_log=log), expected=repr(exp)[:800], observed=repr(got)[:800])
+            return False
+    return True
+
+
 def with_empty_children(rng, d):
     out = dict((k, v) for k, v in d.items() if k != "children")
     kids = [with_empty_children(rng, c) for c in d.get("children", [])]
@@ -249,6 +307,9 @@ def check_all(ctx, lib, rng, par, attrs, kind, case, starts, mls, opts_idx=None)
                     if not deep_eq(_plain(again), _plain(got)):
                         ctx.violation("C10/roundtrip/export-import-export", "roundtrip", dict(case, start=s, maxlevel=ml, options=opt[0]), expected=repr(got)[:500], observed=repr(again)[:500])
                         return False
+    ctx.case((tuple(par), kind, "reuse", repr(attrs)[:60]))
+    if not check_reuse(ctx, lib, rng, nodes, recorded, ch, opts, case):
+        return False
     # export(import_(d)) == d up to empty children lists
     d = ref_export(recorded, ch, 0, None, None, None, dict)
     d2 = with_empty_children(rng, d)
@@ -309,7 +370,7 @@ def run(ctx):
                 attrs = small_attrs(rng, n)
                 case = {"par": list(par), "kind": kind, "attrs_repr": repr(attrs)}
                 check_all(ctx, lib, rng, par, attrs, kind, case, range(n), lambda s: [None] + list(range(0, R.height(ch, s) + 2)))
-        ctx.exhaustive.append("all ordered trees with %d nodes x every start x maxlevel None,0..h+1 x 7 option sets%s" % (n, " x 3 node classes" if n <= 5 else ""))
+        ctx.exhaustive.append("all ordered trees with %d nodes x every start x maxlevel None,0..h+1 x 10 option sets%s" % (n, " x 3 node classes" if n <= 5 else ""))
     nrand = (10000 if T else 480) // ctx.nshards + 1
     for r in range(nrand):
         rng = ctx.rng("rand", r)
